@@ -22,12 +22,6 @@ type vfFrame struct{ tag int }
 func (vfFrame) writeFrame(writeContext) error { return nil }
 func (vfFrame) staysWithinBuffer(int) bool    { return true }
 
-// Narrow signature of the known RFC 7540 defect (closed node keeps its queue).
-const vfSigStale = "p7540-closed-node-keeps-queue"
-
-// Narrow signature of the second RFC 7540 defect (opened former idle node evicted from the tree).
-const vfSigIdleEvict = "p7540-opened-idle-node-evicted"
-
 type vfRef struct {
 	kind  byte // 'd' data, 'h' hdr, 'c' ctl, 'r' rst
 	sid   uint32
@@ -69,10 +63,7 @@ type vfCase struct {
 	refQ     map[uint32][]vfRef
 	refOpen  map[uint32]bool
 	everOpen map[uint32]bool
-	broken   bool   // the history left the WriteScheduler contract: oracle off
-	region   string // non-empty: a known-defect region was entered; failures carry this sig
-	// 7540 idle bookkeeping for the narrow sig
-	idleMade map[uint32]bool
+	broken   bool // the history left the WriteScheduler contract: oracle off
 	// C13 bookkeeping
 	c13        bool
 	lastNonInc [8]uint32
@@ -175,11 +166,7 @@ func (c *vfCase) fail(o *vu.Out, desc string) {
 	if c.broken {
 		return
 	}
-	sig := ""
-	if c.region != "" {
-		sig = c.region
-	}
-	o.Fail(sig, fmt.Sprintf("[%s] %s", c.kind, desc))
+	o.Fail("", fmt.Sprintf("[%s] %s", c.kind, desc))
 }
 
 // sendableRef: is the head of the reference queue of sid sendable under the current windows?
@@ -242,7 +229,6 @@ func vfExec(ops []string, o *vu.Out, c13 bool) {
 		}
 		newOp, res := c.run(t, op, o)
 		o.Op(newOp, res)
-		c.postOp(o)
 	}
 }
 
@@ -272,7 +258,7 @@ func vfReset(t []string, rest []string, c13 bool) *vfCase {
 		return nil
 	}
 	c := &vfCase{kind: t[1], streams: map[uint32]*stream{}, startTag: map[int]int{}, wdTag: map[*writeData]int{},
-		refQ: map[uint32][]vfRef{}, refOpen: map[uint32]bool{}, everOpen: map[uint32]bool{}, idleMade: map[uint32]bool{},
+		refQ: map[uint32][]vfRef{}, refOpen: map[uint32]bool{}, everOpen: map[uint32]bool{},
 		skipped: map[uint32]int{}, skipBound: map[uint32]int{}, c13: c13}
 	c.sc = &serverConn{maxFrameSize: int32(a[0])}
 	c.sc.flow.n = int32(a[1])
@@ -353,11 +339,6 @@ func (c *vfCase) run(t []string, op string, o *vu.Out) (string, string) {
 		if !c.refOpen[id] {
 			c.broken = true
 			o.Stat("contract-broken")
-		}
-		if c.kind == "p7540" && c.maxClosed > 0 && len(c.refQ[id]) > 0 && !c.broken && c.region == "" {
-			// known defect: the closed node stays in the tree with a stale queue
-			c.region = vfSigStale
-			o.Stat("region:" + vfSigStale)
 		}
 		res := vu.Catch(func() string { c.ws.CloseStream(id); return "ok" })
 		if len(c.refQ[id]) > 0 {
@@ -528,7 +509,7 @@ func (c *vfCase) pop(o *vu.Out) (string, string) {
 	select {
 	case <-popDone:
 	case <-time.After(20 * time.Second):
-		o.Fail(c.region, fmt.Sprintf("[%s] Pop did not return within 20 s (infinite loop in the scheduler)", c.kind))
+		o.Fail("", fmt.Sprintf("[%s] Pop did not return within 20 s (infinite loop in the scheduler)", c.kind))
 		o.Op("pop", "hang")
 		o.Close()
 		os.Exit(0)
@@ -632,37 +613,6 @@ func (c *vfCase) pop(o *vu.Out) (string, string) {
 		c.oracleC13(o, p.sid, sendable, toggleBefore, line)
 	}
 	return opLine, line
-}
-
-// postOp detects entry into the region of the second known RFC 7540 defect: a stream whose node was
-// created idle by AdjustStream and later opened is still on the idle list; when the list overflows the
-// node of the OPEN stream is removed from the tree (frames lost, later Push(DATA) panics).
-func (c *vfCase) postOp(o *vu.Out) {
-	ws, ok := c.ws.(*priorityWriteSchedulerRFC7540)
-	if !ok || c.broken {
-		return
-	}
-	for id, n := range ws.nodes {
-		if n.state == priorityNodeIdleRFC7540 {
-			c.idleMade[id] = true
-		}
-	}
-	if c.region != "" {
-		return
-	}
-	var openIDs []uint32
-	for id := range c.refOpen {
-		openIDs = append(openIDs, id)
-	}
-	sort.Slice(openIDs, func(i, j int) bool { return openIDs[i] < openIDs[j] })
-	for _, id := range openIDs {
-		if c.idleMade[id] && ws.nodes[id] == nil {
-			c.region = vfSigIdleEvict
-			o.Stat("region:" + vfSigIdleEvict)
-			o.Fail(vfSigIdleEvict, fmt.Sprintf("[p7540] open stream %d (node created idle by AdjustStream, then opened) was evicted from the priority tree by the idle-list limit %d with %d frames queued", id, c.maxIdle, len(c.refQ[id])))
-			return
-		}
-	}
 }
 
 // oracleC13 states C13 on the implementation after a Pop that served stream sid.
